@@ -16,7 +16,12 @@
 (* is the deviation in which the mutex only covers the second load: it     *)
 (* violates NoLossWhenLocked and IdentityStableWhenLocked, and its         *)
 (* schedules that the mutex forbids are replayed on the real goroutines as *)
-(* a probe of mutual exclusion (they must prove infeasible).               *)
+(* a probe of mutual exclusion (they must prove infeasible).  Registry =    *)
+(* TRUE is the deviation in which a builder is entered in a shared         *)
+(* registry before its codec is built and whoever finds the type there     *)
+(* takes the codec as it is: it violates PublishedComplete and             *)
+(* UsesOwnCompleteCodec (the stress lets every goroutine make its first    *)
+(* call on one big fresh type at once to meet it).                         *)
 (*                                                                         *)
 (* Lost updates are ALLOWED in the unlocked caches: two goroutines that    *)
 (* miss on different types from the same snapshot each publish a map       *)
@@ -29,71 +34,96 @@
 EXTENDS Naturals, FiniteSets, Sequences, TLC
 
 CONSTANTS Procs, Types, MaxCalls, Locked,
-          EarlyUnlock   \* deviation witness: the mutex is given back after the second check, before the build and the store
+          EarlyUnlock,  \* deviation witness: the mutex is given back after the second check, before the build and the store
+          Registry      \* deviation witness: a builder is entered in a registry shared by all goroutines BEFORE its codec is built,
+                        \* and a goroutine that finds the type registered takes that codec as it is
 
 VARIABLES maps,        \* map id -> set of entries <<type, builder>>; id 0 is the initial empty map
           published,   \* id of the published map
           pc, snap, want, calls,
           complete,    \* set of <<type, builder>> codecs that are fully built
           used,        \* history: <<proc, wanted type, entry used>>
-          lock
+          lock,
+          reg,         \* the registry of the deviation: entries <<type, builder>> that somebody has begun to build
+          mine         \* the entry a goroutine that missed is going to publish and use
 
-vars == <<maps, published, pc, snap, want, calls, complete, used, lock>>
+vars == <<maps, published, pc, snap, want, calls, complete, used, lock, reg, mine>>
 
 NoProc == "none"
+NoEntry == <<CHOOSE t \in Types : TRUE, NoProc>>
 TypesIn(id) == {e[1] : e \in maps[id]}
 EntryFor(id, t) == CHOOSE e \in maps[id] : e[1] = t
 
 Init == /\ maps = (0 :> {}) /\ published = 0
         /\ pc = [p \in Procs |-> "idle"] /\ snap = [p \in Procs |-> 0] /\ want = [p \in Procs |-> CHOOSE t \in Types : TRUE]
         /\ calls = [p \in Procs |-> 0] /\ complete = {} /\ used = {} /\ lock = NoProc
+        /\ reg = {} /\ mine = [p \in Procs |-> NoEntry]
 
 Call(p) == /\ pc[p] = "idle" /\ calls[p] < MaxCalls
            /\ \E t \in Types : want' = [want EXCEPT ![p] = t]
            /\ calls' = [calls EXCEPT ![p] = @ + 1] /\ pc' = [pc EXCEPT ![p] = "load"]
-           /\ UNCHANGED <<maps, published, snap, complete, used, lock>>
+           /\ UNCHANGED <<maps, published, snap, complete, used, lock, reg, mine>>
 
 Load(p) == /\ pc[p] = "load"
            /\ snap' = [snap EXCEPT ![p] = published]
            /\ pc' = [pc EXCEPT ![p] = IF want[p] \in TypesIn(published) THEN "use"
                                       ELSE IF Locked THEN "lock" ELSE "build"]
-           /\ UNCHANGED <<maps, published, want, calls, complete, used, lock>>
+           /\ UNCHANGED <<maps, published, want, calls, complete, used, lock, reg, mine>>
 
 Lock(p) == /\ pc[p] = "lock" /\ lock = NoProc /\ lock' = p /\ pc' = [pc EXCEPT ![p] = "load2"]
-           /\ UNCHANGED <<maps, published, snap, want, calls, complete, used>>
+           /\ UNCHANGED <<maps, published, snap, want, calls, complete, used, reg, mine>>
 
 Load2(p) == /\ pc[p] = "load2"
             /\ snap' = [snap EXCEPT ![p] = published]
             /\ pc' = [pc EXCEPT ![p] = IF want[p] \in TypesIn(published) THEN "unlock" ELSE "build"]
             /\ lock' = IF EarlyUnlock /\ want[p] \notin TypesIn(published) THEN NoProc ELSE lock
-            /\ UNCHANGED <<maps, published, want, calls, complete, used>>
+            /\ UNCHANGED <<maps, published, want, calls, complete, used, reg, mine>>
 
 Build(p) == /\ pc[p] = "build"
-            /\ complete' = complete \cup {<<want[p], p>>}       \* private until Store
-            /\ pc' = [pc EXCEPT ![p] = "store"]
+            /\ IF Registry /\ \E e \in reg : e[1] = want[p]
+               THEN \* the deviation: somebody is registered as the builder of the type: that codec is taken as it is
+                    /\ mine' = [mine EXCEPT ![p] = CHOOSE e \in reg : e[1] = want[p]]
+                    /\ pc' = [pc EXCEPT ![p] = "store"]
+                    /\ UNCHANGED <<complete, reg>>
+               ELSE IF Registry
+               THEN \* the deviation: registered first, built afterwards (Build2)
+                    /\ reg' = reg \cup {<<want[p], p>>}
+                    /\ mine' = [mine EXCEPT ![p] = <<want[p], p>>]
+                    /\ pc' = [pc EXCEPT ![p] = "build2"]
+                    /\ UNCHANGED complete
+               ELSE /\ complete' = complete \cup {<<want[p], p>>}       \* private until Store
+                    /\ mine' = [mine EXCEPT ![p] = <<want[p], p>>]
+                    /\ pc' = [pc EXCEPT ![p] = "store"]
+                    /\ UNCHANGED reg
             /\ UNCHANGED <<maps, published, snap, want, calls, used, lock>>
+
+Build2(p) == /\ pc[p] = "build2"
+             /\ complete' = complete \cup {mine[p]}
+             /\ pc' = [pc EXCEPT ![p] = "store"]
+             /\ UNCHANGED <<maps, published, snap, want, calls, used, lock, reg, mine>>
 
 Store(p) == /\ pc[p] = "store"
             /\ LET id == Cardinality(DOMAIN maps)
                    \* entries of the snapshot are kept as they are (identity preserved); the own type is added
-                   new == maps[snap[p]] \cup {<<want[p], p>>} IN
+                   new == maps[snap[p]] \cup {mine[p]} IN
                /\ maps' = maps @@ (id :> new)
                /\ published' = id
             /\ pc' = [pc EXCEPT ![p] = IF Locked /\ ~EarlyUnlock THEN "unlock" ELSE "use"]
-            /\ UNCHANGED <<snap, want, calls, complete, used, lock>>
+            /\ UNCHANGED <<snap, want, calls, complete, used, lock, reg, mine>>
 
 Unlock(p) == /\ pc[p] = "unlock" /\ lock = p /\ lock' = NoProc
              /\ pc' = [pc EXCEPT ![p] = "use"]
-             /\ UNCHANGED <<maps, published, snap, want, calls, complete, used>>
+             /\ UNCHANGED <<maps, published, snap, want, calls, complete, used, reg, mine>>
 
 \* the codec used is the snapshot's entry on a hit, the own build on a miss
 Use(p) == /\ pc[p] = "use"
-          /\ LET e == IF want[p] \in TypesIn(snap[p]) THEN EntryFor(snap[p], want[p]) ELSE <<want[p], p>> IN
+          /\ LET e == IF want[p] \in TypesIn(snap[p]) THEN EntryFor(snap[p], want[p]) ELSE mine[p] IN
                used' = used \cup {<<p, want[p], e>>}
           /\ pc' = [pc EXCEPT ![p] = "idle"]
-          /\ UNCHANGED <<maps, published, snap, want, calls, complete, lock>>
+          /\ mine' = [mine EXCEPT ![p] = NoEntry]
+          /\ UNCHANGED <<maps, published, snap, want, calls, complete, lock, reg>>
 
-Next == \E p \in Procs : Call(p) \/ Load(p) \/ Lock(p) \/ Load2(p) \/ Build(p) \/ Store(p) \/ Unlock(p) \/ Use(p)
+Next == \E p \in Procs : Call(p) \/ Load(p) \/ Lock(p) \/ Load2(p) \/ Build(p) \/ Build2(p) \/ Store(p) \/ Unlock(p) \/ Use(p)
 Spec == Init /\ [][Next]_vars
 
 -----------------------------------------------------------------------------
